@@ -118,10 +118,53 @@ def loop_running_items(rng, quick):
     return items
 
 
+def cli_part(ctx):
+    """the real command-line program (cmd/arcaflow/main.go built with the scripted deployer) on every way it can end -
+    result printed, run failed, invalid input, namespaces listed without a run, invalid workflow, interrupted while its
+    step executes (a plugin that reacts to the cancel signal, one that ignores it): the scripted deployer's ledger must
+    show every deployment closed again when the process has ended"""
+    try:
+        cli = vlib.build_cli(ctx.work)
+    except RuntimeError as e:
+        ctx.inconclusive(str(e)[-400:])
+        return
+    wf = {'steps': {'a': {'kind': 'plugin', 'pstep': 'work', 'fields': {'input': tmap({'id': lit('a')}), 'closure_wait_timeout': lit(150)}},
+                    'b': {'kind': 'plugin', 'pstep': 'work', 'fields': {'input': tmap({'id': lit('b'), 'deps': tmap({'t': ref('steps.a.outputs.success.tok')})})}}},
+          'outputs': {'success': tmap({'v': ref('steps.b.outputs.success.tok')})}}
+    cases = [('result', {'out': 'success', 'delay_ms': 20}, [], None), ('run-fails', {'out': 'success', 'crash': True}, [], None),
+             ('error-output', {'out': 'error'}, [], None),
+             ('invalid-input', {'out': 'success'}, ['-input', 'badinput.yaml'], None), ('namespaces', {'out': 'success'}, ['-get-namespaces'], None),
+             ('interrupt-reacts', {'hang': True}, [], 0.4), ('interrupt-ignored', {'hang': True, 'on_cancel': 'ignore'}, [], 0.4)]
+    n = 0
+    for k, (name, ex, more, sigint) in enumerate(cases):
+        base = os.path.join(ctx.work, 'clic05_%d' % k)
+        os.makedirs(base)
+        open(os.path.join(base, 'workflow.yaml'), 'w').write(vlib.render_workflow(wf))
+        open(os.path.join(base, 'config.yaml'), 'w').write(vlib.CLI_CONFIG)
+        open(os.path.join(base, 'badinput.yaml'), 'w').write('no_such_input_field: 1\n')
+        ledger = os.path.join(base, 'ledger.txt')
+        code, so, se, secs = vlib.run_cli(cli, base, {'a': {'exec': ex}, 'b': {'exec': {'out': 'success'}}},
+                                          ['-context', base, '-workflow', 'workflow.yaml', '-config', 'config.yaml'] + more,
+                                          timeout=30, sigint_after=sigint, ledger=ledger)
+        n += 1
+        rp = {'kind': 'cli-scenario', 'how': 'verifcli %s, step a: %s%s' % (' '.join(more), json.dumps(ex), (', SIGINT after %s s' % sigint) if sigint else '')}
+        if code == 124:
+            ctx.inconclusive('command-line case %s did not end within 30 s' % name)
+            continue
+        dep, clo, nex = vlib.read_ledger(ledger)
+        if not dep:
+            ctx.inconclusive('command-line case %s: the ledger shows no deployment at all (exit %s): %s' % (name, code, se[-300:]))
+            continue
+        if dep - clo:
+            ctx.add('C05', 'plugin-still-deployed-when-the-program-ended', 'cli %s (exit %s): %d of %d deployments never closed' % (name, code, len(dep - clo), len(dep)), rp)
+    ctx.cov(cli_cases=n)
+
+
 def run(ctx):
     import engine_model
     engine_model.model_part(ctx, 'C05')
     probe_part(ctx)
+    cli_part(ctx)
     prof = dict(max_steps=4, p_tag=0.1, p_error=0.2, p_crash=0.2, p_deployfail=0.2, p_enabled=0.4, p_multi=0.5)
 
     def extra(rng):
